@@ -97,12 +97,12 @@ def pruneUpdated : List Nat → App → Except Halt App
     | none => .error .error
     | some v => pruneUpdated rest ((s.delIdx v))
 
-def poaBegin (s : App) : Except Halt App :=
+def poaBegin (lf : LimitFacts) (s : App) : Except Halt App :=
   match pruneUpdated s.updated s with
   | .error h => .error h
   | .ok s =>
     let s := { s with updated := [] }
-    if s.height > 1 then
+    if s.height > lf.beginGate then
       if s.lastTotal < 0 || s.lastTotal ≥ (U64 : Int) then .error .panic   -- math.Int.Uint64 panics
       else .ok { s with cached := s.lastTotal.toNat, absCh := 0 }
     else .ok s
